@@ -206,6 +206,9 @@ var c04Pairs = [][3]string{
 	{"Accept", "*/*", "*/*, text/html;q=0"},
 	{"Accept-Language", "*, de;q=0.0", "*"},
 	{"Accept-Encoding", "gzip;q=0.000, *", "gzip;q=0.001, *"},
+	{"Accept-Encoding", "br, gzip;q=0.000", "br, gzip;q=0.001"},
+	{"Accept-Encoding", "gzip;q=0", "identity;q=0"},
+	{"Accept-Language", "de;q=0.00", "fr;q=0"},
 	{"X-Api-Key", "alice", "bob"},
 	{"Dnt", "1", "0"},
 	{"Sec-Ch-Ua-Mobile", "?0", "?1"},
